@@ -30,6 +30,15 @@ type Case struct {
 	// (statement name "s2") is then parsed by the callback - which retains the text - and refused by
 	// the cache: what the callback holds stays as valid as for an accepted statement.
 	StmtCap int `json:"stmt_cap,omitempty"`
+	// Unnamed: the portal is the unnamed one (bound again and again, as drivers do)
+	Unnamed bool `json:"unnamed,omitempty"`
+}
+
+func (c Case) portal() string {
+	if c.Unnamed {
+		return ""
+	}
+	return "p"
 }
 
 func fill(n int, b byte) []byte {
@@ -131,9 +140,9 @@ func Run(c Case) core.Result {
 		case "parse-other":
 			b = pgwire.Parse("s2", string(fill(m.Size, m.Fill)), nil)
 		case "bind":
-			b = pgwire.Bind("p", "s", nil, [][]byte{fill(m.Size, m.Fill), fill(3, m.Fill)}, nil)
+			b = pgwire.Bind(c.portal(), "s", nil, [][]byte{fill(m.Size, m.Fill), fill(3, m.Fill)}, nil)
 		case "execute":
-			b = pgwire.Execute("p", 0)
+			b = pgwire.Execute(c.portal(), 0)
 		case "sync":
 			b = pgwire.Sync()
 		case "copy-start":
